@@ -16,8 +16,8 @@ type Stmt struct {
 func stmt(t string) Stmt { return Stmt{T: t, X: []int{}, C: [][]int{}, S: ""} }
 
 // Tokenise reads OBJ text into statements. Written from the format
-// description (B1 "Object Files (.obj)"): line oriented, '#' starts a
-// comment, items separated by blanks/tabs, the first item is the keyword.
+// description (B1 "Object Files (.obj)"): line oriented, a line whose first
+// item starts with '#' is a comment, items separated by blanks/tabs, the first item is the keyword.
 // It knows v, vt, vn, g, usemtl and f; every other keyword is an "x"
 // statement; a line of a known keyword that cannot be read is "bad"; a text
 // with more statements than the projection budget ends in a "cut" statement.
@@ -32,14 +32,12 @@ func Tokenise(text []byte, enc Enc) []Stmt {
 			break
 		}
 		line := strings.TrimRight(raw, "\r")
-		if i := strings.IndexByte(line, '#'); i >= 0 {
-			if strings.TrimSpace(line[:i]) == "" {
-				if strings.TrimSpace(line) != "" {
-					out = append(out, stmt("x"))
-				}
-				continue
-			}
-			line = line[:i]
+		// A comment is a line whose first item starts with '#'. Anywhere else '#' is an
+		// ordinary character of an item (ObjFormat.tla, NAMES): names such as "wheel#1"
+		// are written verbatim by exporters and must be read as they stand.
+		if t := strings.TrimLeft(line, " \t"); strings.HasPrefix(t, "#") {
+			out = append(out, stmt("x"))
+			continue
 		}
 		items := splitBlank(line)
 		if len(items) == 0 {
@@ -124,4 +122,14 @@ func face(items []string) Stmt {
 		st.C = append(st.C, c)
 	}
 	return st
+}
+
+// NameItems is the projection of a name onto the specification's domain: the
+// items of the name (split at the format's blanks: space and tab).
+func NameItems(name string) []string {
+	it := splitBlank(name)
+	if it == nil {
+		it = []string{}
+	}
+	return it
 }
